@@ -2058,6 +2058,7 @@ func (e *Extractor) extractPreserveLayout(fragments []text.TextFragment, pageWid
 		defaultCharsPerLine = 80  // Default width in characters
 		minCharsPerLine     = 40  // Minimum width
 		maxCharsPerLine     = 200 // Maximum width
+		maxBlankLines       = 200 // Maximum vertical gap, in lines
 	)
 
 	// Calculate character width based on page width and desired output width
@@ -2171,6 +2172,11 @@ func (e *Extractor) extractPreserveLayout(fragments []text.TextFragment, pageWid
 			if gapInLines < 1 {
 				gapInLines = 1
 			}
+			// Coordinates come from the file: a fragment placed absurdly far away must not be
+			// turned into an equally absurd number of blank lines.
+			if gapInLines > maxBlankLines {
+				gapInLines = maxBlankLines
+			}
 
 			// Add newlines (1 for normal line break, more for vertical gaps)
 			for i := 0; i < gapInLines; i++ {
@@ -2189,6 +2195,10 @@ func (e *Extractor) extractPreserveLayout(fragments []text.TextFragment, pageWid
 			targetCol := int(frag.X / charWidth)
 			if targetCol < 0 {
 				targetCol = 0
+			}
+			// ... nor into a line that is wider than the widest line this mode produces
+			if targetCol > maxCharsPerLine {
+				targetCol = maxCharsPerLine
 			}
 
 			// Add spaces to reach target column
